@@ -12,7 +12,9 @@ package bebop
 // reported an error other than io.EOF, some error is on record.
 // and the error record is clean: it holds no io.EOF marker (Next removes the marker of a clean end of input).
 //@ define clean(tr *tokenReader) bool = forall i int :: 0 <= i && i < len(tr.errs) ==> !errIs(tr.errs[i].err, io.EOF)
-//@ define okTR(tr *tokenReader) bool = tr != nil && tr.r != nil && tr.tree != nil && (ghost("ioerr", tr.r) == 1 ==> len(tr.errs) > 0) && clean(tr)
+// Token shapes the parser relies on when it slices comment tokens: "//..." and "/*...*/".
+//@ define wfKC(kind tokenKind, concrete []byte) bool = (kind == tokenKindLineComment ==> len(concrete) >= 2) && (kind == tokenKindBlockComment ==> len(concrete) >= 4)
+//@ define okTR(tr *tokenReader) bool = tr != nil && tr.r != nil && tr.tree != nil && (ghost("ioerr", tr.r) == 1 ==> len(tr.errs) > 0) && clean(tr) && wfKC(tr.nextToken.kind, tr.nextToken.concrete)
 
 // step(tr): what every tokenizer step (find, the token builders, whitespace skipping, identifiers) does to the
 // error record. Errors only accumulate and earlier entries stay; every entry added except possibly the last
@@ -25,7 +27,7 @@ package bebop
 //@ define stepIO(tr *tokenReader) bool = (ghost("ioerr", tr.r) == 1 && old(ghost("ioerr", tr.r)) != 1) ==> (len(tr.errs) > old(len(tr.errs)) && !errIs(tr.errs[len(tr.errs)-1].err, io.EOF))
 //@ define stepEOF(tr *tokenReader) bool = (len(tr.errs) > old(len(tr.errs)) && errIs(tr.errs[len(tr.errs)-1].err, io.EOF)) ==> ghost("ateof", tr.r) == 1
 // inside the loops of a step nothing has been recorded yet
-//@ define quiet(tr *tokenReader) bool = tr.r == old(tr.r) && tr.tree == old(tr.tree) && tr.r != nil && len(tr.errs) == old(len(tr.errs)) && (forall i int :: 0 <= i && i < old(len(tr.errs)) ==> tr.errs[i].err == old(tr.errs[i].err)) && ghost("ioerr", tr.r) == old(ghost("ioerr", tr.r))
+//@ define quiet(tr *tokenReader) bool = tr.r == old(tr.r) && tr.tree == old(tr.tree) && tr.r != nil && len(tr.errs) == old(len(tr.errs)) && (forall i int :: 0 <= i && i < old(len(tr.errs)) ==> tr.errs[i].err == old(tr.errs[i].err)) && ghost("ioerr", tr.r) == old(ghost("ioerr", tr.r)) && wfKC(tr.nextToken.kind, tr.nextToken.concrete)
 
 //@ func newTokenReader
 //@   ensures okTR(result) && isfresh(result) && len(result.errs) == 0 && ghost("canunread", result.r) == 0 && ghost("ioerr", result.r) == 0 && !result.keepNextToken
@@ -64,7 +66,9 @@ package bebop
 // Token builders (the functions stored in tokenTree.build).
 //@ functype func(tr *tokenReader, concrete []byte) token
 //@   requires tr != nil && tr.r != nil && tr.tree != nil
+//@   requires wfKC(tr.nextToken.kind, tr.nextToken.concrete)
 //@   ensures [GROW] stepGrow(tr)
+//@   ensures [TOK] wfKC(result.kind, result.concrete) && wfKC(tr.nextToken.kind, tr.nextToken.concrete)
 //@   ensures [KEEP] stepKeep(tr)
 //@   ensures [REAL] stepReal(tr)
 //@   ensures [IOREC] stepIO(tr)
@@ -75,7 +79,9 @@ package bebop
 //@   requires v != nil
 //@   requires tr != nil && tr.r != nil && tr.tree != nil
 //@   requires len(concrete) > 0 ==> ghost("canunread", tr.r) == 1
+//@   requires wfKC(tr.nextToken.kind, tr.nextToken.concrete)
 //@   ensures [GROW] stepGrow(tr)
+//@   ensures [TOK] wfKC(result0.kind, result0.concrete) && wfKC(tr.nextToken.kind, tr.nextToken.concrete)
 //@   ensures [KEEP] stepKeep(tr)
 //@   ensures [REAL] stepReal(tr)
 //@   ensures [IOREC] stepIO(tr)
@@ -88,7 +94,9 @@ package bebop
 
 //@ func (*tokenTree).findFirst
 //@   requires v != nil && tr != nil && tr.r != nil && tr.tree != nil
+//@   requires wfKC(tr.nextToken.kind, tr.nextToken.concrete)
 //@   ensures [GROW] stepGrow(tr)
+//@   ensures [TOK] wfKC(result0.kind, result0.concrete) && wfKC(tr.nextToken.kind, tr.nextToken.concrete)
 //@   ensures [KEEP] stepKeep(tr)
 //@   ensures [REAL] stepReal(tr)
 //@   ensures [IOREC] stepIO(tr)
@@ -102,11 +110,15 @@ package bebop
 //@   modifies fresh(string), alloc()
 
 // ---- token builders: each satisfies the function-type contract above -------------------------
+// simpleToken is only registered for punctuation and keywords-by-bytes, never for comment kinds (trusted with the tree).
 //@ func simpleToken$1
 //@   modifies nothing
 //@ func numberToken
+//@   invariant loop 1: tk.kind == tokenKindIntegerLiteral || tk.kind == tokenKindFloatLiteral
 //@   requires tr != nil && tr.r != nil && tr.tree != nil
+//@   requires wfKC(tr.nextToken.kind, tr.nextToken.concrete)
 //@   ensures [GROW] stepGrow(tr)
+//@   ensures [TOK] wfKC(result.kind, result.concrete) && wfKC(tr.nextToken.kind, tr.nextToken.concrete)
 //@   ensures [KEEP] stepKeep(tr)
 //@   ensures [REAL] stepReal(tr)
 //@   ensures [IOREC] stepIO(tr)
@@ -115,15 +127,24 @@ package bebop
 //@   invariant loop 1: quiet(tr)
 //@ func lineCommentToken
 //@   requires tr != nil && tr.r != nil && tr.tree != nil
+//@   requires wfKC(tr.nextToken.kind, tr.nextToken.concrete)
+// the token tree registers this builder under a two-byte prefix ("//", "/*"); the dispatch through the tree is trusted
+//@   requires len(concrete) >= 2
 //@   ensures [GROW] stepGrow(tr)
+//@   ensures [TOK] wfKC(result.kind, result.concrete) && wfKC(tr.nextToken.kind, tr.nextToken.concrete)
 //@   ensures [KEEP] stepKeep(tr)
 //@   ensures [REAL] stepReal(tr)
 //@   ensures [IOREC] stepIO(tr)
 //@   ensures [EOFMARK] stepEOF(tr)
 //@   modifies tr.errs, tr.loc.lineChar, tr.loc.line, tr.nextToken, tr.lastToken, ghost("canunread", tr.r), ghost("ateof", tr.r), ghost("ioerr", tr.r), fresh(locError), fresh(byte), any(string), tr(), hw(), alloc()
 //@ func blockCommentToken
+//@   invariant loop 1: tk.kind == tokenKindBlockComment && len(tk.concrete) >= 2 && (lastByte == 42 ==> len(tk.concrete) >= 3)
 //@   requires tr != nil && tr.r != nil && tr.tree != nil
+//@   requires wfKC(tr.nextToken.kind, tr.nextToken.concrete)
+// the token tree registers this builder under a two-byte prefix ("//", "/*"); the dispatch through the tree is trusted
+//@   requires len(concrete) >= 2
 //@   ensures [GROW] stepGrow(tr)
+//@   ensures [TOK] wfKC(result.kind, result.concrete) && wfKC(tr.nextToken.kind, tr.nextToken.concrete)
 //@   ensures [KEEP] stepKeep(tr)
 //@   ensures [REAL] stepReal(tr)
 //@   ensures [IOREC] stepIO(tr)
@@ -131,8 +152,11 @@ package bebop
 //@   modifies tr.errs, tr.loc.lineChar, tr.loc.line, tr.nextToken, tr.lastToken, ghost("canunread", tr.r), ghost("ateof", tr.r), ghost("ioerr", tr.r), fresh(locError), fresh(byte), any(string), tr(), hw(), alloc()
 //@   invariant loop 1: quiet(tr)
 //@ func stringLiteralToken
+//@   invariant loop 1: tk.kind == tokenKindStringLiteral
 //@   requires tr != nil && tr.r != nil && tr.tree != nil
+//@   requires wfKC(tr.nextToken.kind, tr.nextToken.concrete)
 //@   ensures [GROW] stepGrow(tr)
+//@   ensures [TOK] wfKC(result.kind, result.concrete) && wfKC(tr.nextToken.kind, tr.nextToken.concrete)
 //@   ensures [KEEP] stepKeep(tr)
 //@   ensures [REAL] stepReal(tr)
 //@   ensures [IOREC] stepIO(tr)
@@ -143,7 +167,9 @@ package bebop
 // skipFollowingWhitespace must not lose an I/O error and must only unread a byte it has read.
 //@ func (*tokenReader).skipFollowingWhitespace
 //@   requires tr != nil && tr.r != nil && tr.tree != nil
+//@   requires wfKC(tr.nextToken.kind, tr.nextToken.concrete)
 //@   ensures [GROW] stepGrow(tr)
+//@   ensures [TOK] wfKC(tr.nextToken.kind, tr.nextToken.concrete)
 //@   ensures [KEEP] stepKeep(tr)
 //@   ensures [REAL] stepReal(tr)
 //@   ensures [IOREC] stepIO(tr)
@@ -152,8 +178,13 @@ package bebop
 //@   invariant loop 1: quiet(tr)
 
 //@ func (*tokenReader).nextIdent
+// the keyword table maps words to keyword kinds, never to a comment kind (trusted: contents of a package-level map)
+//@   assume after "keywordKind, ok := keywords[string(tk.concrete)]": keywordKind != tokenKindLineComment && keywordKind != tokenKindBlockComment
+//@   invariant loop 1: tk.kind == tokenKindIdent
 //@   requires tr != nil && tr.r != nil && tr.tree != nil
+//@   requires wfKC(tr.nextToken.kind, tr.nextToken.concrete)
 //@   ensures [GROW] stepGrow(tr)
+//@   ensures [TOK] wfKC(tr.nextToken.kind, tr.nextToken.concrete)
 //@   ensures [KEEP] stepKeep(tr)
 //@   ensures [REAL] stepReal(tr)
 //@   ensures [IOREC] stepIO(tr)
@@ -171,6 +202,186 @@ package bebop
 //@   ensures tr != nil && tr.r != nil && tr.tree != nil && tr.r == old(tr.r) && tr.tree == old(tr.tree)
 //@   ensures [IOREC] ghost("ioerr", tr.r) == 1 ==> len(tr.errs) > 0
 //@   ensures [CLEAN] clean(tr)
+//@   ensures [TOK] wfKC(tr.nextToken.kind, tr.nextToken.concrete)
 //@   ensures [NODROP] len(tr.errs) >= old(len(tr.errs)) && (forall i int :: 0 <= i && i < old(len(tr.errs)) ==> tr.errs[i].err == old(tr.errs[i].err))
 //@   ensures [ATEOF] (!result && len(tr.errs) == 0) ==> ghost("ateof", tr.r) == 1
 //@   modifies tr.errs, tr.keepNextToken, tr.loc.lineChar, tr.loc.line, tr.nextToken, tr.lastToken, ghost("canunread", tr.r), ghost("ateof", tr.r), ghost("ioerr", tr.r), fresh(locError), fresh(byte), any(string), tr(), hw(), alloc()
+
+// ---- the parser (parse.go) -----------------------------------------------------------------------
+// Every parser function keeps the tokenizer usable and never loses an I/O error (okTR), so that the
+// check of tr.Err() at the end of ReadFile sees it.
+
+//@ func (locError).Error
+//@   modifies fresh(), any(string), alloc()
+
+//@ func (*tokenReader).Err
+//@   requires tr != nil
+//@   ensures (result == nil) == (len(tr.errs) == 0)
+//@   modifies fresh(), any(string), alloc()
+
+//@ func (*tokenReader).Token
+//@   requires tr != nil && wfKC(tr.nextToken.kind, tr.nextToken.concrete)
+//@   ensures wfKC(result.kind, result.concrete) && wfKC(tr.nextToken.kind, tr.nextToken.concrete)
+//@   modifies tr.keepNextToken, tr.lastToken, fresh(), alloc(), tr(), hw()
+
+//@ func (*tokenReader).UnNext
+//@   requires tr != nil
+//@   modifies tr.keepNextToken
+
+// Pure helpers: they only build strings.
+//@ assume-func kindsStr
+//@   modifies fresh(), any(string), alloc()
+//@ assume-func (tokenKind).String
+//@   modifies nothing
+//@ interface error.Error
+//@   modifies fresh(), any(string), alloc()
+
+// The sets of integer primitives are package-level maps filled by a composite literal; what they contain is
+// stated here (trusted, compare primitive.go) so that decodeIntegerType's panic can be shown unreachable.
+//@ assume-func isUintPrimitive
+//@   ensures result == (simpleType == "byte" || simpleType == "uint8" || simpleType == "uint16" || simpleType == "uint32" || simpleType == "uint64")
+//@   modifies nothing
+//@ assume-func isIntPrimitive
+//@   ensures result == (simpleType == "int16" || simpleType == "int32" || simpleType == "int64")
+//@   modifies nothing
+//@ func decodeIntegerType
+//@   requires typ == "byte" || typ == "uint8" || typ == "uint16" || typ == "uint32" || typ == "uint64" || typ == "int16" || typ == "int32" || typ == "int64"
+//@   ensures bitsize == 8 || bitsize == 16 || bitsize == 32 || bitsize == 64
+//@   modifies nothing
+
+//@ func readError
+//@   ensures result != nil
+//@   modifies fresh(), any(string), alloc()
+
+//@ func expectAnyOfNext
+//@   requires okTR(tr)
+//@   ensures [IOREC] ghost("ioerr", tr.r) == 1 ==> len(tr.errs) > 0
+//@   ensures [CLEAN] clean(tr)
+//@   ensures [TOK] wfKC(tr.nextToken.kind, tr.nextToken.concrete)
+//@   ensures result != nil || len(tr.errs) == 0
+//@   modifies tr.errs, tr.keepNextToken, tr.loc.lineChar, tr.loc.line, tr.nextToken, tr.lastToken, ghost("canunread", tr.r), ghost("ateof", tr.r), ghost("ioerr", tr.r), fresh(), any(string), tr(), hw(), alloc()
+//@ func expectNext
+//@   requires okTR(tr)
+//@   invariant loop 1: tr != nil && tr.r != nil && tr.tree != nil && tr.r == old(tr.r) && tr.tree == old(tr.tree)
+//@   invariant loop 1: ghost("ioerr", tr.r) == 1 ==> len(tr.errs) > 0
+//@   invariant loop 1: clean(tr)
+//@   invariant loop 1: wfKC(tr.nextToken.kind, tr.nextToken.concrete)
+//@   ensures [IOREC] ghost("ioerr", tr.r) == 1 ==> len(tr.errs) > 0
+//@   ensures [CLEAN] clean(tr)
+//@   ensures [TOK] wfKC(tr.nextToken.kind, tr.nextToken.concrete)
+//@   ensures [TOKENS] result1 == nil ==> len(result0) == len(kinds)
+//@   modifies tr.errs, tr.keepNextToken, tr.loc.lineChar, tr.loc.line, tr.nextToken, tr.lastToken, ghost("canunread", tr.r), ghost("ateof", tr.r), ghost("ioerr", tr.r), fresh(), any(string), tr(), hw(), alloc()
+//@ func optNewline
+//@   requires okTR(tr)
+//@   ensures [IOREC] ghost("ioerr", tr.r) == 1 ==> len(tr.errs) > 0
+//@   ensures [CLEAN] clean(tr)
+//@   ensures [TOK] wfKC(tr.nextToken.kind, tr.nextToken.concrete)
+//@   modifies tr.errs, tr.keepNextToken, tr.loc.lineChar, tr.loc.line, tr.nextToken, tr.lastToken, ghost("canunread", tr.r), ghost("ateof", tr.r), ghost("ioerr", tr.r), fresh(), any(string), tr(), hw(), alloc()
+//@ func readEnumOptionValue
+//@   requires okTR(tr)
+//@   ensures [IOREC] ghost("ioerr", tr.r) == 1 ==> len(tr.errs) > 0
+//@   ensures [CLEAN] clean(tr)
+//@   ensures [TOK] wfKC(tr.nextToken.kind, tr.nextToken.concrete)
+//@   modifies tr.errs, tr.keepNextToken, tr.loc.lineChar, tr.loc.line, tr.nextToken, tr.lastToken, ghost("canunread", tr.r), ghost("ateof", tr.r), ghost("ioerr", tr.r), fresh(), any(string), tr(), hw(), alloc()
+//@ func readUntil
+//@   requires okTR(tr)
+//@   invariant loop 1: tr != nil && tr.r != nil && tr.tree != nil && tr.r == old(tr.r) && tr.tree == old(tr.tree)
+//@   invariant loop 1: ghost("ioerr", tr.r) == 1 ==> len(tr.errs) > 0
+//@   invariant loop 1: clean(tr)
+//@   invariant loop 1: wfKC(tr.nextToken.kind, tr.nextToken.concrete)
+//@   ensures [IOREC] ghost("ioerr", tr.r) == 1 ==> len(tr.errs) > 0
+//@   ensures [CLEAN] clean(tr)
+//@   ensures [TOK] wfKC(tr.nextToken.kind, tr.nextToken.concrete)
+//@   modifies tr.errs, tr.keepNextToken, tr.loc.lineChar, tr.loc.line, tr.nextToken, tr.lastToken, ghost("canunread", tr.r), ghost("ateof", tr.r), ghost("ioerr", tr.r), fresh(), any(string), tr(), hw(), alloc()
+//@ func readEnum
+//@   requires okTR(tr)
+//@   invariant loop 1: tr != nil && tr.r != nil && tr.tree != nil && tr.r == old(tr.r) && tr.tree == old(tr.tree)
+//@   invariant loop 1: ghost("ioerr", tr.r) == 1 ==> len(tr.errs) > 0
+//@   invariant loop 1: clean(tr)
+//@   invariant loop 1: wfKC(tr.nextToken.kind, tr.nextToken.concrete)
+//@   ensures [IOREC] ghost("ioerr", tr.r) == 1 ==> len(tr.errs) > 0
+//@   ensures [CLEAN] clean(tr)
+//@   ensures [TOK] wfKC(tr.nextToken.kind, tr.nextToken.concrete)
+//@   modifies tr.errs, tr.keepNextToken, tr.loc.lineChar, tr.loc.line, tr.nextToken, tr.lastToken, ghost("canunread", tr.r), ghost("ateof", tr.r), ghost("ioerr", tr.r), fresh(), any(string), tr(), hw(), alloc()
+//@ func readDeprecated
+//@   requires okTR(tr)
+//@   ensures [IOREC] ghost("ioerr", tr.r) == 1 ==> len(tr.errs) > 0
+//@   ensures [CLEAN] clean(tr)
+//@   ensures [TOK] wfKC(tr.nextToken.kind, tr.nextToken.concrete)
+//@   modifies tr.errs, tr.keepNextToken, tr.loc.lineChar, tr.loc.line, tr.nextToken, tr.lastToken, ghost("canunread", tr.r), ghost("ateof", tr.r), ghost("ioerr", tr.r), fresh(), any(string), tr(), hw(), alloc()
+//@ func skipEndOfLineComments
+//@   requires okTR(tr)
+//@   invariant loop 1: tr != nil && tr.r != nil && tr.tree != nil && tr.r == old(tr.r) && tr.tree == old(tr.tree)
+//@   invariant loop 1: ghost("ioerr", tr.r) == 1 ==> len(tr.errs) > 0
+//@   invariant loop 1: clean(tr)
+//@   invariant loop 1: wfKC(tr.nextToken.kind, tr.nextToken.concrete)
+//@   ensures [IOREC] ghost("ioerr", tr.r) == 1 ==> len(tr.errs) > 0
+//@   ensures [CLEAN] clean(tr)
+//@   ensures [TOK] wfKC(tr.nextToken.kind, tr.nextToken.concrete)
+//@   modifies tr.errs, tr.keepNextToken, tr.loc.lineChar, tr.loc.line, tr.nextToken, tr.lastToken, ghost("canunread", tr.r), ghost("ateof", tr.r), ghost("ioerr", tr.r), fresh(), any(string), tr(), hw(), alloc()
+//@ func readStruct
+//@   requires okTR(tr)
+//@   invariant loop 1: tr != nil && tr.r != nil && tr.tree != nil && tr.r == old(tr.r) && tr.tree == old(tr.tree)
+//@   invariant loop 1: ghost("ioerr", tr.r) == 1 ==> len(tr.errs) > 0
+//@   invariant loop 1: clean(tr)
+//@   invariant loop 1: wfKC(tr.nextToken.kind, tr.nextToken.concrete)
+//@   ensures [IOREC] ghost("ioerr", tr.r) == 1 ==> len(tr.errs) > 0
+//@   ensures [CLEAN] clean(tr)
+//@   ensures [TOK] wfKC(tr.nextToken.kind, tr.nextToken.concrete)
+//@   modifies tr.errs, tr.keepNextToken, tr.loc.lineChar, tr.loc.line, tr.nextToken, tr.lastToken, ghost("canunread", tr.r), ghost("ateof", tr.r), ghost("ioerr", tr.r), fresh(), any(string), tr(), hw(), alloc()
+//@ func readFieldType
+//@   requires okTR(tr)
+//@   invariant loop 1: tr != nil && tr.r != nil && tr.tree != nil && tr.r == old(tr.r) && tr.tree == old(tr.tree)
+//@   invariant loop 1: ghost("ioerr", tr.r) == 1 ==> len(tr.errs) > 0
+//@   invariant loop 1: clean(tr)
+//@   invariant loop 1: wfKC(tr.nextToken.kind, tr.nextToken.concrete)
+//@   ensures [IOREC] ghost("ioerr", tr.r) == 1 ==> len(tr.errs) > 0
+//@   ensures [CLEAN] clean(tr)
+//@   ensures [TOK] wfKC(tr.nextToken.kind, tr.nextToken.concrete)
+//@   modifies tr.errs, tr.keepNextToken, tr.loc.lineChar, tr.loc.line, tr.nextToken, tr.lastToken, ghost("canunread", tr.r), ghost("ateof", tr.r), ghost("ioerr", tr.r), fresh(), any(string), tr(), hw(), alloc()
+//@ func readMessage
+//@   requires okTR(tr)
+//@   invariant loop 1: tr != nil && tr.r != nil && tr.tree != nil && tr.r == old(tr.r) && tr.tree == old(tr.tree)
+//@   invariant loop 1: ghost("ioerr", tr.r) == 1 ==> len(tr.errs) > 0
+//@   invariant loop 1: clean(tr)
+//@   invariant loop 1: wfKC(tr.nextToken.kind, tr.nextToken.concrete)
+//@   ensures [IOREC] ghost("ioerr", tr.r) == 1 ==> len(tr.errs) > 0
+//@   ensures [CLEAN] clean(tr)
+//@   ensures [TOK] wfKC(tr.nextToken.kind, tr.nextToken.concrete)
+//@   modifies tr.errs, tr.keepNextToken, tr.loc.lineChar, tr.loc.line, tr.nextToken, tr.lastToken, ghost("canunread", tr.r), ghost("ateof", tr.r), ghost("ioerr", tr.r), fresh(), any(string), tr(), hw(), alloc()
+//@ func readUnion
+//@   requires okTR(tr)
+//@   invariant loop 1: tr != nil && tr.r != nil && tr.tree != nil && tr.r == old(tr.r) && tr.tree == old(tr.tree)
+//@   invariant loop 1: ghost("ioerr", tr.r) == 1 ==> len(tr.errs) > 0
+//@   invariant loop 1: clean(tr)
+//@   invariant loop 1: wfKC(tr.nextToken.kind, tr.nextToken.concrete)
+//@   ensures [IOREC] ghost("ioerr", tr.r) == 1 ==> len(tr.errs) > 0
+//@   ensures [CLEAN] clean(tr)
+//@   ensures [TOK] wfKC(tr.nextToken.kind, tr.nextToken.concrete)
+//@   modifies tr.errs, tr.keepNextToken, tr.loc.lineChar, tr.loc.line, tr.nextToken, tr.lastToken, ghost("canunread", tr.r), ghost("ateof", tr.r), ghost("ioerr", tr.r), fresh(), any(string), tr(), hw(), alloc()
+//@ func readConst
+//@   requires okTR(tr)
+//@   ensures [IOREC] ghost("ioerr", tr.r) == 1 ==> len(tr.errs) > 0
+//@   ensures [CLEAN] clean(tr)
+//@   ensures [TOK] wfKC(tr.nextToken.kind, tr.nextToken.concrete)
+//@   modifies tr.errs, tr.keepNextToken, tr.loc.lineChar, tr.loc.line, tr.nextToken, tr.lastToken, ghost("canunread", tr.r), ghost("ateof", tr.r), ghost("ioerr", tr.r), fresh(), any(string), tr(), hw(), alloc()
+//@ func readOpCode
+//@   requires okTR(tr)
+//@   ensures [IOREC] ghost("ioerr", tr.r) == 1 ==> len(tr.errs) > 0
+//@   ensures [CLEAN] clean(tr)
+//@   ensures [TOK] wfKC(tr.nextToken.kind, tr.nextToken.concrete)
+//@   modifies tr.errs, tr.keepNextToken, tr.loc.lineChar, tr.loc.line, tr.nextToken, tr.lastToken, ghost("canunread", tr.r), ghost("ateof", tr.r), ghost("ioerr", tr.r), fresh(), any(string), tr(), hw(), alloc()
+//@ func readBitflagExpr
+//@   requires okTR(tr)
+//@   ensures [IOREC] ghost("ioerr", tr.r) == 1 ==> len(tr.errs) > 0
+//@   ensures [CLEAN] clean(tr)
+//@   ensures [TOK] wfKC(tr.nextToken.kind, tr.nextToken.concrete)
+//@   modifies tr.errs, tr.keepNextToken, tr.loc.lineChar, tr.loc.line, tr.nextToken, tr.lastToken, ghost("canunread", tr.r), ghost("ateof", tr.r), ghost("ioerr", tr.r), fresh(), any(string), tr(), hw(), alloc()
+
+// ReadFile: no panic; every return statement other than the last returns a non-nil error; at the last one
+// (success) the tokenizer holds no error, the reader has not failed, and it is at the end of its input.
+//@ func ReadFile
+//@   invariant loop 1: okTR(tr)
+//@   assert before "return f, warnings, err": [ERRRET] err != nil
+//@   assert before "return f, warnings, nil": [CONSUMED] len(tr.errs) == 0 && ghost("ioerr", tr.r) != 1 && ghost("ateof", tr.r) == 1
+//@   modifies everything
